@@ -161,16 +161,47 @@ def key_of(c, got='?'):
 
 # ------------------------------------------------------------------ the world
 
+BACKUP_LIMIT = 64 * 1024      # BodyPipe::MaxCapacity: Squid can bypass / echo only what it still holds
+
+
 class IWorld(lsx.RetryWorld):
+    """World + ICAP server + back-pressure-safe senders (a 64 KB message does not fit one non-blocking send)."""
+
     def __init__(self, ctx, name, port_base):
         self.icap_port = port_base + 2
         super().__init__(ctx, name, port_base, conf=squid_conf(self.icap_port))
         self.icap = icap.IcapServer(self.icap_port, lambda: self.sq.now_us, options_for)
+        self.outq = []          # [conn, pending bytes]
+
+    def queue(self, conn, data):
+        self.outq.append([conn, data])
+        self._flush()
+
+    def _flush(self):
+        moved = False
+        for q in self.outq:
+            conn, data = q
+            if conn.closed or conn.reset:
+                q[1] = b''
+                continue
+            n = conn.send(data)
+            if n:
+                q[1] = data[n:]
+                moved = True
+        self.outq = [q for q in self.outq if q[1]]
+        return moved
 
     def _origin_step(self, responder, ex):
         p = super()._origin_step(responder, ex)
         q = self.icap.step()
-        return p or q
+        r = self._flush()
+        return p or q or r
+
+    def origin_conn_of(self, m):
+        for oc in self.oconns:
+            if oc.requests and oc.requests[-1] is m:
+                return oc.c
+        raise HarnessError('origin connection of a request not found')
 
     def stop(self):
         try:
@@ -185,44 +216,43 @@ def make_world(ctx, shard):
 
 # ------------------------------------------------------------------ messages
 
-def virgin_body(c):
-    return httpref.body_pattern(0, c['size'])
+def virgin_body(size):
+    return httpref.body_pattern(0, size)
 
 
-def adapted_body(c, spec):
+def adapted_body(size, spec):
     if not spec.get('body'):
         return b''
-    return httpref.body_pattern(1, c['size'] + ADAPTED_EXTRA)
+    return httpref.body_pattern(1, size + ADAPTED_EXTRA)
 
 
-def client_request(w, c, path, n_marker):
+def client_request(w, mode, path, n, size):
     url = w.url(path)
-    if c['mode'] == 'resp':
-        return ('GET %s HTTP/1.1\r\nHost: %s\r\nX-Case: %d\r\n\r\n' % (url, w.hostport(), n_marker)).encode('latin1')
-    vb = virgin_body(c)
+    if mode == 'resp':
+        return ('GET %s HTTP/1.1\r\nHost: %s\r\nX-Case: %d\r\n\r\n' % (url, w.hostport(), n)).encode('latin1')
+    vb = virgin_body(size)
     return ('POST %s HTTP/1.1\r\nHost: %s\r\nX-Virgin: %d\r\nContent-Type: application/octet-stream\r\nContent-Length: %d\r\n\r\n' % (
-        url, w.hostport(), n_marker, len(vb))).encode('latin1') + vb
+        url, w.hostport(), n, len(vb))).encode('latin1') + vb
 
 
-def origin_response(w, c, n_marker):
+def origin_response(w, mode, n, size):
     date = ls.http_date(w.sq.now_us)
-    if c['mode'] == 'resp':
-        vb = virgin_body(c)
+    if mode == 'resp':
+        vb = virgin_body(size)
         return ('HTTP/1.1 200 OK\r\nDate: %s\r\nContent-Type: application/octet-stream\r\nX-Virgin: %d\r\nContent-Length: %d\r\n'
-                'Cache-Control: no-store\r\n\r\n' % (date, n_marker, len(vb))).encode('latin1') + vb
-    body = b'origin-reply-%d' % n_marker
+                'Cache-Control: no-store\r\n\r\n' % (date, n, len(vb))).encode('latin1') + vb
+    body = b'origin-reply-%d' % n
     return ('HTTP/1.1 200 OK\r\nDate: %s\r\nX-Origin: %d\r\nContent-Length: %d\r\nCache-Control: no-store\r\n\r\n' % (
-        date, n_marker, len(body))).encode('latin1') + body
+        date, n, len(body))).encode('latin1') + body
 
 
-def adapted_head(w, c, spec, req):
+def adapted_head(w, mode, n, size, spec, req):
     """The adapted HTTP head the ICAP service returns (built from the case, not from Squid's bytes, except the
     request target, which is copied from the encapsulated request line)."""
-    ab = adapted_body(c, spec)
-    n = c['n']
+    ab = adapted_body(size, spec)
     cl = '' if spec.get('fr') == 'te' else 'Content-Length: %d\r\n' % len(ab)
     date = ls.http_date(w.sq.now_us)
-    if c['mode'] == 'resp' or spec.get('satisfy'):
+    if mode == 'resp' or spec.get('satisfy'):
         if spec.get('body'):
             return ('HTTP/1.1 200 OK\r\nDate: %s\r\nContent-Type: application/octet-stream\r\nX-Adapted: %d\r\n%s'
                     'Cache-Control: no-store\r\n\r\n' % (date, n, cl)).encode('latin1')
@@ -235,18 +265,24 @@ def adapted_head(w, c, spec, req):
     return ('GET %s HTTP/1.1\r\nHost: %s\r\nX-Adapted: %d\r\n\r\n' % (target, w.hostport(), n)).encode('latin1')
 
 
-def make_policy(w, c, spec):
+def make_policy(w, mode, n, size, spec, tag, log):
+    """The behaviour of the ICAP service for the transaction whose URL ends in `tag`."""
     def policy(req):
         start = req.http_start('req')
-        if b'/prime' in start:
-            return {'kind': '204', 'when': 'late'}
-        if ('/c%d' % c['n']).encode() not in start:
-            raise HarnessError('ICAP request for an unexpected URL: %r (case %d)' % (start[:120], c['n']))
+        if tag.encode() not in start:
+            raise HarnessError('ICAP request for an unexpected URL: %r (expected %s)' % (start[:120], tag))
         b = {'kind': spec['kind'], 'when': spec['when']}
+        if spec['kind'] == '204' and '204' not in req.allow and (req.preview is None or spec['when'] == 'late'):
+            # Squid did not offer "Allow: 204" (it cannot keep the whole virgin body): a 204 is legal inside the preview
+            # only, so a conforming service sends the unmodified message back in a 200 instead
+            sec = 'res' if mode == 'resp' else 'req'
+            log.append('echo-200')
+            return {'kind': '200', 'when': 'late', 'section': sec, 'http_head': req.sections[sec + '-hdr'], 'echo': True,
+                    'http_body': None if req.body_kind == 'null-body' else b'', 'cut': None}
         if spec['kind'] == '200':
-            b['section'] = 'res' if (c['mode'] == 'resp' or spec.get('satisfy')) else 'req'
-            b['http_head'] = adapted_head(w, c, spec, req)
-            b['http_body'] = adapted_body(c, spec) if spec.get('body') else None
+            b['section'] = 'res' if (mode == 'resp' or spec.get('satisfy')) else 'req'
+            b['http_head'] = adapted_head(w, mode, n, size, spec, req)
+            b['http_body'] = adapted_body(size, spec) if spec.get('body') else None
             b['cut'] = spec.get('cut')
             b['cut_how'] = spec.get('cut_how', 'fin')
             ab = b['http_body']
@@ -265,7 +301,7 @@ def make_policy(w, c, spec):
 
 def classify(m, raw, eof, n, vb, ab, adapted_status, virgin_status, squid_error_ok):
     """Which message is this?  m: httpref.Msg parsed from `raw` (a response at the client, or a request at the origin).
-    -> (class, problem-or-None); class in virgin | adapted | error | trunc-virgin | trunc-adapted | none | hang | bad."""
+    -> (class, problem-or-None); class in virgin | adapted | error | trunc-virgin | trunc-adapted | none | hang-* | bad."""
     if not raw:
         return ('none' if eof else 'hang-nothing'), None
     if m.error:
@@ -314,159 +350,189 @@ def classify(m, raw, eof, n, vb, ab, adapted_status, virgin_status, squid_error_
     return 'trunc-' + which, None
 
 
-def allowed_classes(c, spec):
+def allowed_classes(bypass, size, spec):
     if spec['kind'] == '204':
         return {'virgin'}
     if not spec.get('fault'):
         return {'satisfied'} if spec.get('satisfy') else {'adapted'}
+    can_bypass = bypass == 'on'
     if spec.get('used'):
         # the failure comes after adapted content went downstream: an error or a visibly truncated adapted message;
         # the virgin message only if bypass is on (and Squid had not used the adapted content after all); when only
         # the ICAP last-chunk is missing the observer may hold the adapted message with its body intact
-        return ({'error', 'trunc-adapted'} | ({'virgin'} if c['bypass'] == 'on' else set())
+        return ({'error', 'trunc-adapted'} | ({'virgin'} if can_bypass else set())
                 | ({'adapted'} if spec.get('cut') == 'before-last' else set()))
-    return {'virgin'} if c['bypass'] == 'on' else {'error'}
+    if not can_bypass:
+        return {'error'}
+    # optional service, nothing adapted was used: the virgin message.  A virgin body of 64 KB or more cannot be kept
+    # (BodyPipe capacity, documented: "not all ICAP errors can be bypassed"), there an error is acceptable as well
+    return {'virgin'} if size < BACKUP_LIMIT else {'virgin', 'error'}
 
 
-# ------------------------------------------------------------------ one case
+# ------------------------------------------------------------------ one transaction, one case
 
-def drain_hang(w, conn_bytes_fn, max_virtual_s=150):
-    """Nothing complete and no close yet: let virtual time pass (timeouts) and see what comes."""
-    waited = 0
-    while waited < max_virtual_s:
-        w.sq.advance(5000)
-        w._origin_step(None, ls.Exchange())
-        waited += 5
-        if conn_bytes_fn():
-            break
-    return waited
+class Obs:
+    pass
+
+
+def transact(w, mode, sv, n, size, spec, tag):
+    """One client transaction through service `sv` whose ICAP side behaves as `spec`; returns what every party saw."""
+    o = Obs()
+    o.log = []
+    first_xact = len(w.icap.xacts)
+    w.icap.policy = make_policy(w, mode, n, size, spec, tag, o.log)
+    method = 'GET' if mode == 'resp' else 'POST'
+    req = client_request(w, mode, '/%s/%s' % (sv, tag), n, size)
+
+    def responder(m):
+        w.queue(w.origin_conn_of(m), origin_response(w, mode, n, size))
+        return None
+    cl = w.sq.client()
+    w.queue(cl, req)
+    steps = 80 + size // 2048
+    ex = w.fetch(b'', responder, method=method, client=cl, max_steps=steps, keep_client=True)
+    m = httpref.parse_response(cl.inbuf, method, eof=cl.eof)
+    o.waited = 0
+    if not cl.eof and not (m.complete and not m.error):
+        # neither a complete response nor a close: give the timeouts a chance before calling it a hang
+        while o.waited < 150:
+            w.sq.advance(5000)
+            w._origin_step(responder, ex)
+            o.waited += 5
+            cl.pump()
+            mm = httpref.parse_response(cl.inbuf, method, eof=cl.eof)
+            if cl.eof or (mm.complete and not mm.error):
+                break
+        for _ in range(4):
+            w.sq.settle()
+            w._origin_step(responder, ex)
+            cl.pump()
+    o.method = method
+    o.client_raw = cl.inbuf
+    o.client_eof = cl.eof
+    cl.close()
+    w.sq.settle(1)
+    w._origin_step(None, ex)
+    # what the origin saw (complete requests and a possible truncated tail), before the connections are closed
+    o.origin_msgs = []
+    for oc in w.oconns:
+        off = 0
+        for r in oc.requests:
+            o.origin_msgs.append((r, oc.raw[off:off + r.consumed], True))
+            off += r.consumed
+        tail = oc.raw[oc.parsed_upto:]
+        if tail:
+            o.origin_msgs.append((httpref.parse_request(tail), tail, oc.c.eof or oc.c.closed))
+    o.origin_raw = ex.origin_raw
+    w.outq = []
+    w.close_origin_conns()
+    o.icap_tr = w.icap.transcript(first_xact)
+    o.icap_all = '; '.join('%s %s %s' % (x['method'], x['path'], '|'.join(x['events'])) for x in w.icap.xacts[first_xact:])
+    o.xacts = [x for x in w.icap.xacts[first_xact:] if x['method'] != 'OPTIONS']
+    o.events = [e for x in o.xacts for e in x['events']]
+    o.icap_problems = list(w.icap.problems)
+    return o
+
+
+def judge(mode, n, size, spec, o, echo):
+    """-> (class, problem, detail): what the observer (client for RESPMOD, origin for REQMOD) received."""
+    vb = virgin_body(size)
+    ab = adapted_body(size, spec)
+    cm = httpref.parse_response(o.client_raw, o.method, eof=o.client_eof)
+    adapted_status = 200 if spec.get('body') else 403
+    if mode == 'resp':
+        cls, prob = classify(cm, o.client_raw, o.client_eof, n, vb, ab, adapted_status, 200, True)
+        return cls, prob, 'client: ' + cls
+    # REQMOD: the origin is the observer of the adapted/virgin request; the client sees the origin's reply,
+    # a Squid error, or (request satisfaction) the adapted response
+    ocls = []
+    prob = None
+    for r, raw, closed in o.origin_msgs:
+        k, p = classify(r, raw, closed, n, vb, ab, 0, 0, False)
+        ocls.append(k)
+        prob = prob or p
+    if cm.head_complete and not cm.error and cm.has('x-origin'):
+        ccls, cprob = ('origin-reply', None)
+        if cm.get('x-origin') != str(n) or not cm.complete or cm.body != b'origin-reply-%d' % n:
+            cprob = 'client got a wrong origin reply: %r' % o.client_raw[:200]
+    else:
+        ccls, cprob = classify(cm, o.client_raw, o.client_eof, n, b'', ab if spec.get('satisfy') else b'', 200, 200, True)
+    prob = prob or cprob
+    uniq = sorted(set(ocls))
+    if not ocls:
+        cls = 'satisfied' if ccls == 'adapted' else ('error' if ccls in ('error', 'none') else 'client-' + ccls)
+    elif uniq == ['virgin'] or uniq == ['adapted']:
+        cls = uniq[0]
+        if len(ocls) > 1:
+            cls += '-x%d' % len(ocls)
+        if ccls not in ('origin-reply', 'error'):
+            prob = prob or 'origin received the %s request but the client got %s' % (uniq[0], ccls)
+    elif all(k in ('trunc-adapted', 'trunc-head') for k in uniq):
+        cls = 'trunc-adapted' if ccls in ('error', 'none') else 'trunc-adapted/client-' + ccls
+    elif all(k in ('trunc-virgin', 'trunc-head') for k in uniq):
+        cls = 'trunc-virgin'
+    else:
+        cls = 'origin-' + '+'.join(uniq)
+    return cls, prob, 'origin: %s; client: %s' % (ocls or 'nothing', ccls)
+
+
+PRIME = dict(kind='204', when='late')
 
 
 def run_case(w, c):
     spec = beh_spec(c['beh'])
     n = c['n']
     sv = svc(c['mode'], c['pv'], c['bypass'])
-    vb = virgin_body(c)
-    ab = adapted_body(c, spec)
     w.icap.begin_case()
-    w.icap.policy = make_policy(w, c, spec)
     notes = []
+    violation = None
+    tr = ''
     if c['pconn'] == 'reused':
-        pc = dict(c, size=1)
-        preq = client_request(w, pc, '/%s/prime%d' % (sv, n), n)
-        pex = w.fetch(preq, lambda m: origin_response(w, pc, n), max_steps=60)
-        if not pex.response or pex.response.status != 200 or not pex.response.complete:
-            raise HarnessError('priming transaction failed for %s: %r' % (describe(c), pex.client_bytes[:200]))
-        w.close_origin_conns()
+        # a 204 transaction on the same service leaves an idle persistent ICAP connection behind
+        po = transact(w, c['mode'], sv, n, 1, PRIME, 'prime%d' % n)
+        pcls, pprob, pdetail = judge(c['mode'], n, 1, PRIME, po, False)
+        tr = 'PRIME O:%r\nC:%r eof=%s\n%s\n' % (po.origin_raw[:600], po.client_raw[:600], po.client_eof, po.icap_tr)
+        if pprob or pcls != 'virgin':
+            violation = '[%s] %s: the priming 204 transaction (1-byte body) gave "%s" %s [%s]' % (
+                key_of(dict(c, beh='204-late', size=1), 'bad' if pprob else pcls), describe(c), pcls, pprob or '', pdetail)
         idle = len(w.icap.open_conns())
-        if idle < 1:
-            raise HarnessError('no idle ICAP connection after the priming transaction (%s)' % describe(c))
+        if idle < 1 and not violation:
+            raise HarnessError('no idle ICAP connection after the priming transaction (%s): %s' % (describe(c), po.icap_all))
         notes.append('primed(idle=%d)' % idle)
-        prime_xacts = len(w.icap.xacts)
-    else:
-        prime_xacts = 0
-    req = client_request(w, c, '/%s/c%d' % (sv, n), n)
-    method = 'GET' if c['mode'] == 'resp' else 'POST'
-    ex = w.fetch(req, lambda m: origin_response(w, c, n), method=method, max_steps=80, keep_client=True)
-    cl = ex.client
-    m = httpref.parse_response(cl.inbuf, method, eof=cl.eof)
-    waited = 0
-    if not cl.eof and not (m.complete and not m.error):
-        # neither a complete response nor a close: give the timeouts a chance before calling it a hang
-        def moved():
-            cl.pump()
-            mm = httpref.parse_response(cl.inbuf, method, eof=cl.eof)
-            return cl.eof or (mm.complete and not mm.error)
-        waited = drain_hang(w, moved)
-        for _ in range(4):
-            w.sq.settle()
-            w._origin_step(lambda mm: origin_response(w, c, n), ex)
-            cl.pump()
-        notes.append('waited %ds' % waited)
-    client_raw = cl.inbuf
-    client_eof = cl.eof
-    cl.close()
-    w.sq.settle(1)
-    w._origin_step(None, ex)
-    # what the origin saw (complete requests and a possible truncated tail), before the connections are closed
-    origin_msgs = []
-    for oc in w.oconns:
-        off = 0
-        for r in oc.requests:
-            origin_msgs.append((r, oc.raw[off:off + r.consumed], True))
-            off += r.consumed
-        tail = oc.raw[oc.parsed_upto:]
-        if tail:
-            origin_msgs.append((httpref.parse_request(tail), tail, oc.c.eof or oc.c.closed))
-    origin_raw = ex.origin_raw
-    w.close_origin_conns()
-    icap_tr = w.icap.transcript()
-    icap_all = '; '.join('%s %s %s' % (x['method'], x['path'], '|'.join(x['events'])) for x in w.icap.xacts)
-    xacts = [x for x in w.icap.xacts[prime_xacts:] if x['method'] != 'OPTIONS']
-    icap_problems = list(w.icap.problems)
+    o = transact(w, c['mode'], sv, n, c['size'], spec, 'c%d' % n)
     w.icap.close_all()
     w.sq.settle(2)
-
-    # ---- classify
-    cm = httpref.parse_response(client_raw, method, eof=client_eof)
-    adapted_status = 200 if spec.get('body') else 403
-    violation = None
-    if c['mode'] == 'resp':
-        cls, prob = classify(cm, client_raw, client_eof, n, vb, ab, adapted_status, 200, True)
-        detail = 'client: ' + cls
-    else:
-        # REQMOD: the origin is the observer of the adapted/virgin request; the client sees the origin's reply,
-        # a Squid error, or (request satisfaction) the adapted response
-        ocls = []
-        prob = None
-        for r, raw, closed in origin_msgs:
-            k, p = classify(r, raw, closed, n, vb, ab, 0, 0, False)
-            ocls.append(k)
-            prob = prob or p
-        if cm.head_complete and not cm.error and cm.has('x-origin'):
-            ccls, cprob = ('origin-reply', None)
-            if cm.get('x-origin') != str(n) or not cm.complete or cm.body != b'origin-reply-%d' % n:
-                cprob = 'client got a wrong origin reply: %r' % client_raw[:200]
-        else:
-            ccls, cprob = classify(cm, client_raw, client_eof, n, b'', ab if spec.get('satisfy') else b'', 200, 200, True)
-        prob = prob or cprob
-        uniq = sorted(set(ocls))
-        if not ocls:
-            cls = 'satisfied' if ccls == 'adapted' else ('error' if ccls in ('error', 'none') else 'client-' + ccls)
-        elif uniq == ['virgin'] or uniq == ['adapted']:
-            cls = uniq[0]
-            if len(ocls) > 1:
-                cls += '-x%d' % len(ocls)
-            if ccls not in ('origin-reply', 'error'):
-                prob = prob or 'origin received the %s request but the client got %s' % (uniq[0], ccls)
-        elif all(k in ('trunc-adapted', 'trunc-head') for k in uniq):
-            cls = 'trunc-adapted' if ccls in ('error', 'none') else 'trunc-adapted/client-' + ccls
-        elif all(k in ('trunc-virgin', 'trunc-head') for k in uniq):
-            cls = 'trunc-virgin'
-        else:
-            cls = 'origin-' + '+'.join(uniq)
-        detail = 'origin: %s; client: %s' % (ocls or 'nothing', ccls)
-    allowed = allowed_classes(c, spec)
-    if prob:
-        violation = prob
-    elif cls not in allowed:
-        violation = 'observer received "%s" but the ICAP service behaviour "%s" with bypass=%s allows only %s' % (
-            cls, c['beh'], c['bypass'], sorted(allowed))
-    if violation:
-        got = 'bad' if prob else re.sub(r'-x\d+$', '', cls)
-        violation = '[%s] %s: %s [%s]' % (key_of(c, got), describe(c), violation, detail)
+    echo = 'echo-200' in o.log
+    cls, prob, detail = judge(c['mode'], n, c['size'], spec, o, echo)
+    allowed = allowed_classes(c['bypass'], c['size'], spec)
+    if not violation:
+        if prob:
+            violation = prob
+        elif re.sub(r'-x\d+$', '', cls) not in allowed:
+            violation = 'observer received "%s" but the ICAP service behaviour "%s" with bypass=%s allows only %s' % (
+                cls, c['beh'], c['bypass'], sorted(allowed))
+        if violation:
+            got = 'bad' if prob else re.sub(r'-x\d+$', '', cls)
+            violation = '[%s] %s: %s [%s]' % (key_of(c, got), describe(c), violation, detail)
     # vacuity / sanity data about the ICAP side
-    did = [e for x in xacts for e in x['events']]
-    previewed = any(x['req'] is not None and x['req'].preview is not None for x in xacts)
-    ieof = any(x['req'] is not None and x['req'].ieof for x in xacts)
-    flags = ('P' if previewed else '') + ('I' if ieof else '') + ('C' if '100-continue' in did else '') + ('R' if len(xacts) > 1 else '')
-    outcome = '%s:%s[%s]->%s' % (c['mode'], c['beh'], flags, cls)
-    if not xacts:
+    if not o.xacts:
         raise HarnessError('no ICAP transaction was started for %s (adaptation_access did not match?)' % describe(c))
-    if spec['kind'] == '204' and '204' not in did or (spec['kind'] == 'status' and not any(e.startswith('status-') for e in did)):
-        raise HarnessError('the ICAP service never got to its scripted answer in %s: %s' % (describe(c), icap_all))
-    transcript = 'CASE %s\nO:%r\nC:%r eof=%s\n%s\nnotes=%s' % (describe(c), origin_raw[:3000], client_raw[:3000], client_eof, icap_tr, notes)
-    info = {'cls': cls, 'icap_problems': icap_problems, 'flags': flags, 'icap_xacts': len(xacts), 'waited': waited}
+    did = o.events
+    if not violation and ((spec['kind'] == '204' and not echo and '204' not in did)
+                          or (spec['kind'] == 'status' and not any(e.startswith('status-') for e in did))):
+        raise HarnessError('the ICAP service never got to its scripted answer in %s: %s' % (describe(c), o.icap_all))
+    previewed = any(x['req'] is not None and x['req'].preview is not None for x in o.xacts)
+    ieof = any(x['req'] is not None and x['req'].ieof for x in o.xacts)
+    flags = (('P' if previewed else '') + ('I' if ieof else '') + ('C' if '100-continue' in did else '')
+             + ('R' if len(o.xacts) > 1 else '') + ('E' if echo else ''))
+    outcome = '%s:%s[%s]->%s' % (c['mode'], c['beh'], flags, cls)
+    if o.waited:
+        notes.append('waited %ds' % o.waited)
+    big = c['size'] > 4096
+    transcript = 'CASE %s\n%sO:%r\nC:%r eof=%s\n%s\nnotes=%s' % (
+        describe(c), tr, (o.origin_raw[:700] + b'...%d' % len(o.origin_raw)) if big else o.origin_raw,
+        (o.client_raw[:700] + b'...%d' % len(o.client_raw)) if big else o.client_raw, o.client_eof, o.icap_tr, notes)
+    info = {'cls': cls, 'icap_problems': o.icap_problems, 'flags': flags, 'icap_xacts': len(o.xacts), 'waited': o.waited}
     return {'outcome': outcome, 'violation': violation, 'transcript': transcript, 'info': info}
 
 
@@ -475,7 +541,8 @@ ASSUME = ['the real squid binary (ASan build of the current tree) runs under the
           'one instance per shard carries 12 ICAP services (mode x preview x bypass) selected by the URL path; every case starts without idle '
           'ICAP connections (pconn=fresh) or right after one priming 204 transaction on the same service (pconn=reused)',
           'icap_service_failure_limit -1 (a failing service is never suspended), OPTIONS answered with Options-TTL 10 days; virgin bodies carry '
-          'Content-Length and are at most 64 KB-1, so Squid can back the whole virgin body up (the documented precondition of bypass)',
+          'Content-Length; "bypass must yield the virgin message" is demanded for virgin bodies below 64 KB (BodyPipe capacity, what Squid can '
+          'keep); at or above 64 KB a failing optional service may also end in an error',
           'a failure of an essential service (bypass=off) must not let the virgin message through: the statement lists the origin message only '
           'after a 204 or a bypassed failure']
 RULE = ('product of mode {REQMOD, RESPMOD} x virgin body size x preview {off, 0, 4} x ICAP service behaviour (204 in/outside preview, 200 with '
